@@ -407,11 +407,30 @@ def check_fault(prog, ref, scenario, scene, phase, i, kname, factory, tier, out)
         if snapshot_scene(scene) != ref["snap"]:
             bad("scene-changed", "a property of an object of the scene reads differently after the run")
         if tier == "thorough":
-            # depth 2: a second fault at the same point before the uses
+            # depth 2: a second fault before the uses -- the same one (must reproduce), then one
+            # of another kind at every 4th other point of the history
             res2 = do_simulate(prog, scene, fault=fault)
             out["runs"] += 1
             if res2["outcome"] != o:
                 bad("fault-not-reproducible", f"same fault twice: {o} then {res2['outcome']}")
+            kinds = fault_kinds()
+            nsites = len(ref["sim_sites"])
+            for j in range(i % 4, nsites, 4):
+                k2name, k2 = kinds[(i + j) % len(kinds)]
+                r3 = do_simulate(prog, scene, fault=(j, k2))
+                out["runs"] += 1
+                d3 = list(r3.get("veneer_dirty") or [])
+                r3.pop("exception", None)
+                r3.pop("simulation", None)
+                if d3:
+                    bad("veneer-dirty:" + "+".join(d3), f"global state not pristine after a second fault ({k2name} at visit {j}) ended with {r3['outcome']}")
+                if snapshot_scene(scene) != ref["snap"]:
+                    bad("scene-changed", f"scene changed after a second fault ({k2name} at visit {j})")
+                    break
+            gc.collect()
+            late = dyn.veneer_dirt(reset=True)
+            if late:
+                bad("veneer-dirty:" + "+".join(late), "global state not pristine after the second-fault sequence")
     elif phase == "gen":
         probe.STATE.reset(tables=prog["tables"], default=True, fault=fault)
         seeded()
@@ -521,7 +540,7 @@ def run(ctx):
         crash_points=tot["faults"],
         fault_site_kinds=site_kinds,
         outcomes_of_faulted_runs=outcomes,
-        bounds={"programs": [p["name"] for p in PROGRAMS], "fault_depth": 2 if ctx.tier == "thorough" else 1},
+        bounds={"programs": [p["name"] for p in PROGRAMS], "fault_depth": 2 if ctx.tier == "thorough" else 1, "second_fault_points": "every 4th visit of the history, kind rotating" if ctx.tier == "thorough" else "none"},
     )
     ctx.assumptions.append("the reference of each program is computed in the clean parent process and again in every worker before its first fault")
 
